@@ -20,7 +20,8 @@ RULE = ("random operation sequences (length <= 8, thorough <= 12) over "
         "clean(computed|keepresults|all), copy(what), to_dict/from_dict, "
         "to_file/from_file (h5, npz, json; every what), model update + clean} "
         "on 8^3 isotropic and VTI problems, gridding 'same' and 'single' "
-        "(fully specified gridding_opts), in memory and file_dir; up to three "
+        "(fully specified gridding_opts), in memory and file_dir, 40 % with a "
+        "relaxed tol_gradient (1e-4/1e-5 vs tol 1e-9); up to three "
         "live objects (original, copies, reloads) driven independently; "
         "distinct = operation bigrams (previous op, op) followed by an "
         "observation that reached the fresh-simulation oracle")
@@ -56,8 +57,12 @@ class Live:
 
 
 class Env:
-    def __init__(self, rec, r, ps, obs, gridding, file_based, tmp, case):
+    def __init__(self, rec, r, ps, obs, gridding, file_based, tmp, case,
+                 tolg=None):
         self.rec, self.r, self.ps, self.obs = rec, r, ps, obs
+        self.tolg = tolg
+        # gradient-type results are only as good as tol_gradient
+        self.rtg = RT if tolg is None else 2e-3
         self.gridding, self.file_based, self.tmp = gridding, file_based, tmp
         self.case = case
         self.fresh_cache = {}
@@ -107,6 +112,8 @@ class Env:
         kw = self.gkw(grid)
         if fdir:
             kw['file_dir'] = fdir
+        if self.tolg is not None:
+            kw['solver_opts'] = {'tol_gradient': self.tolg}
         return simgen.simulation(sv, model, tol=1e-9, **kw)
 
     def fresh(self, ver, what):
@@ -133,7 +140,7 @@ class Env:
         return self.fresh_cache[key]
 
 
-def close(a, b):
+def close(a, b, rt=RT):
     """Relative agreement of finite entries; NaN patterns must match."""
     a, b = np.asarray(a), np.asarray(b)
     if a.shape != b.shape:
@@ -146,7 +153,7 @@ def close(a, b):
     sc = float(np.abs(b[fb]).max())
     d = float(np.abs(a[fa]-b[fb]).max()/sc) if sc > 0 else float(
         np.abs(a[fa]).max())
-    return d <= RT, d
+    return d <= rt, d
 
 
 def run_sequence(rec, seed, k, i, maxlen):
@@ -162,10 +169,13 @@ def run_sequence(rec, seed, k, i, maxlen):
     obs = simgen.observed_from(ps, r, tol=1e-8)
     gridding = gen.choice(r, ['same', 'same', 'single'])
     file_based = bool(r.random() < 0.2)
+    # a relaxed gradient tolerance, as the documentation suggests
+    tolg = float(gen.choice(r, [1e-4, 1e-5])) if r.random() < 0.4 else None
     tmp = tempfile.mkdtemp(prefix='vf-c12-')
     case = {'seed': seed, 'k': k, 'i': i, 'gridding': gridding,
-            'file_based': file_based, 'problem': simgen.summarize(ps)}
-    env = Env(rec, r, ps, obs, gridding, file_based, tmp, case)
+            'file_based': file_based, 'tol_gradient': tolg,
+            'problem': simgen.summarize(ps)}
+    env = Env(rec, r, ps, obs, gridding, file_based, tmp, case, tolg)
     rec.case()
     try:
         try:
@@ -249,12 +259,13 @@ def do_op(env, lives, L, step, force=None):
         elif op == 'gradient':
             val = np.array(sim.gradient)
             writes = True
-            ok, d = close(val, fr['gradient'])
+            ok, d = close(val, fr['gradient'], env.rtg)
             rec.event('gradient_observations')
-            rec.margin('gradient_rel_dev', d)
+            rec.margin('gradient_rel_dev' if env.tolg is None else
+                       'gradient_rel_dev_relaxed_tol', d)
             if not ok:
                 if L.jtvec_pending is not None and close(
-                        val, L.jtvec_pending)[0] and not L.dirty:
+                        val, L.jtvec_pending, env.rtg)[0] and not L.dirty:
                     rec.violation(
                         'C12:gradient-after-jtvec',
                         f'gradient after jtvec(w) returns the cached J^T w, '
@@ -267,7 +278,7 @@ def do_op(env, lives, L, step, force=None):
         elif op == 'jvec':
             val = np.array(sim.jvec(env.v))
             writes = True
-            ok, d = close(val, env.fresh(L.ver, 'jvec'))
+            ok, d = close(val, env.fresh(L.ver, 'jvec'), env.rtg)
             rec.event('jvec_observations')
             if not ok:
                 violation(env, L, op, f'jvec differs from fresh simulation '
@@ -276,7 +287,7 @@ def do_op(env, lives, L, step, force=None):
         elif op == 'jtvec':
             val = np.array(sim.jtvec(env.w))
             writes = True
-            ok, d = close(val, env.fresh(L.ver, 'jtvec'))
+            ok, d = close(val, env.fresh(L.ver, 'jtvec'), env.rtg)
             rec.event('jtvec_observations')
             L.jtvec_pending = val
             if not ok:
@@ -366,6 +377,8 @@ def do_op(env, lives, L, step, force=None):
                           f'fresh simulation by {d:.3e} after {env.log}')
                 return False
     rec.distinct((L.prev.split(':')[0], name.split(':')[0]))
+    if env.tolg is not None:
+        rec.event('operations_with_relaxed_tol_gradient')
     rec.extra_set('operations_seen', [name.split(':')[0] + (
         ':'+name.split(':')[-1] if ':' in name and name.split(':')[0] in
         ('clean', 'copy', 'dict') else '')])
